@@ -4,6 +4,7 @@ import Chewing.Proofs.CliAccept
 import Chewing.Proofs.CliRaw
 import Chewing.Proofs.CliLeaf
 import Chewing.Proofs.CliTrieLink
+import Chewing.Proofs.CliSylValid
 /-!
 # C20 — The dictionary compiler and dumper are inverse on well-formed sources
 
@@ -678,6 +679,13 @@ open CliTrieLink in
     `Gen.trieMixedCmp` is C11's `phraseLt` on Rust strings, UTF-8 being order preserving) -/
 theorem leaf_sort_is_C11 (ps : List Phrase) (hv : ∀ p ∈ ps, ∀ c ∈ p.text, Der.IsScalar c) :
     phraseSort (ps.map ofPhrase) = (TrieCodec.sortLeaf ps).map ofPhrase := phraseSort_map ps hv
+
+/-- the syllable clause of `ValidRec` is not an assumption about compiled records: every syllable of a record
+    `parse_line` accepts comes from the spelling parser and is a value `Syllable::try_from` accepts (`validCode`,
+    the invariant of the type since the repair of C13's F47; C13 `parse_valid`) -/
+theorem parsed_record_syllables_valid {d : Nat} {keep : Bool} {l : Text} {r : Rec}
+    (h : parseLine d keep l = .ok r) : ∀ s ∈ r.syls, 0 < s ∧ s < 65536 ∧ validCode s = true :=
+  Cli.parseLine_syls_valid h
 
 open CliTrieLink in
 /-- **`slice::sort_by` is not assumed to be an insertion sort any more** — for *every* leaf of Rust
